@@ -590,8 +590,11 @@ class LayoutAwareDFXPParser(BeautifulSoup):
         http://www.crummy.com/software/BeautifulSoup/bs4/doc/#installing-a-parser
         """
 
-        # Work around for lack of '&apos;' support in html.parser
-        markup = markup.replace("&apos;", "'")
+        # Work around for lack of '&apos;' support in html.parser (CDATA
+        # sections hold literal characters, not references: leave them alone)
+        markup = re.sub(
+            r"(<!\[CDATA\[.*?\]\]>)|&apos;",
+            lambda m: m.group(1) or "'", markup, flags=re.DOTALL)
 
         super().__init__(
             markup, features, builder, parse_only, from_encoding, **kwargs)
